@@ -1925,6 +1925,17 @@ func (m *Monitors) c17State(n *Node, pre, post *raft.VerifState, c *Cause) {
 			s.Stats.inc("campaign.after_prevote")
 		}
 	}
+	// oracle 1b: with PreVote every other term raise is the adoption of a
+	// term seen in a delivered message; in particular becoming a
+	// pre-candidate leaves the term alone (HardState.Term transitions vs.
+	// received traffic).
+	if m.On["C17"] && n.Opts.PreVote && post.Term > pre.Term && !campaigned && c.Kind != "start" {
+		adopted := c.Kind == "deliver" && c.Flight.M.GetTerm() >= post.Term
+		if !adopted {
+			m.viol([]string{"C17"}, "prevote_gate", "c17.term_raised_without_campaign",
+				"node %d (PreVote, %s) raised its term %d -> %d on %s without campaigning and without a message of that term", n.ID, post.State, pre.Term, post.Term, c.Kind)
+		}
+	}
 	// oracle 4: CheckQuorum leader steps down
 	if m.On["C17"] && n.Opts.CheckQuorum && c.Kind == "tick" && post.State == raft.StateLeader && pre.State == raft.StateLeader && pre.Term == post.Term {
 		span := 2 * n.Opts.ElectionTick
